@@ -30,7 +30,8 @@ BUDGET = {"quick": 80, "thorough": 1800}
 RULE = ("one run = one fresh shared world + a seeded list of 2-32 operations from an 84-entry catalogue, executed by that many "
         "caller threads under one seeded schedule: sequential history | sweep1 (one pre-emption at a chosen line of the first "
         "operation, index-driven so that consecutive runs walk the pre-emption points) | PCT(d<=3) | random switching "
-        "(p in 0.02..0.5), line granular, opcode granular inside the hot functions for a third of the runs; "
+        "(p in 0.02..0.5), line granular, opcode granular inside the hot functions for a third of the runs; the thorough tier adds "
+        "complete single-pre-emption sweeps (every line of the first operation) for seeded ordered pairs; "
         "a case = one (operation list, schedule); distinct = distinct interleavings by SHA-256 over the (thread, function, line) sequence")
 ASSUMPTIONS = [
     "CPython with the GIL: C code between two traced lines of joserfc is atomic in the simulation; data races inside C extensions (free-threaded builds) are out of reach",
@@ -686,6 +687,8 @@ def run(rng: Rng, tier: str, index: int) -> RunResult:
     world_label = rng.label.split(":")[0] + "/C20-material"
     op_names = _pick_ops(rng.sub("ops"), strategy, index)
     opcode = rng.chance(0.33)
+    if tier == "thorough" and strategy == "sweep1" and index % 14 == 1:
+        return _complete_sweep(rng, res, tr, world_label, op_names)
     if strategy == "sequential":
         spec = {"kind": "sequential"}
     elif strategy == "sweep1":
@@ -719,6 +722,33 @@ def run(rng: Rng, tier: str, index: int) -> RunResult:
                                       "strategy": spec})
         tr.add("violation", sig)
     res.events = out.steps
+    res.digest = tr.digest()
+    return res
+
+
+def _complete_sweep(rng, res, tr, world_label, op_names):
+    """every single pre-emption point of the first operation (line granular): complete for this ordered pair"""
+    _, o = execute(world_label, op_names[:1], {"kind": "sequential"})
+    total = min(o.steps, 2500)
+    seen = set()
+    for k in range(total + 1):
+        spec = {"kind": "sweep1", "k": k}
+        w, out = execute(world_label, op_names, spec)
+        res.case(out.trace_hash)
+        seen.add(out.trace_hash)
+        res.fired("thread-switch", out.switches)
+        if out.hot_preemptions:
+            res.probe("preemption-inside-hot-function", out.hot_preemptions)
+        for sig, what in judge(world_label, op_names, w, out):
+            res.violation(ID, sig, what + " [complete sweep, pre-emption point %d of %d]" % (k, total),
+                          {"world": world_label, "ops": op_names, "first": out.first, "decisions": [list(d) for d in out.decisions],
+                           "opcode": False, "strategy": spec})
+        res.events += out.steps
+    res.fired("strategy:sweep1-complete")
+    res.exhaustive_sweeps += 1
+    res.stats["threads_total"] += 2 * (total + 1)
+    tr.add("sweep1-complete", op_names, total, len(seen))
+    res.sample({"strategy": "sweep1-complete", "operations": op_names, "pre_emption_points": total + 1, "distinct_interleavings": len(seen)})
     res.digest = tr.digest()
     return res
 
